@@ -1,8 +1,445 @@
-//! C12 — not built yet.
+//! C12 — a parked producer is always woken by the event it waits for.
+//!
+//! Monitor over real threads: one waiter (credit or reconnect, far-future deadline) plus 1..3
+//! signalling threads issuing ack / cancel / advance / resume / send / spurious-wake operations with
+//! seeded spins. All operations and the waiter's park/wake probe events (H4, recorded under the
+//! control's own mutex) are stamped from one atomic counter. Verdicts are logical:
+//!  * after the signallers finished, the observable state decides whether the waiter's condition is
+//!    true (credit: `wait_for_credit(chunk, expired)` as a pure predicate; reconnect: an accepted resume
+//!    not followed by any advance, or a cancel). If it is true and the waiter is still parked after a
+//!    grace period with a quiet heartbeat, `verif_notify_all()` (changes no state) is issued: if the
+//!    waiter then returns successfully it WAS asleep with a true condition — a lost wake-up.
+//!  * a waiter with a far-future deadline returning Timeout returned before its deadline.
+//!  * never-true waits (with stale acks and spurious wakes thrown at them) must return Timeout, and
+//!    `Instant::now() >= deadline` must hold at return.
+//! Under Miri (stage miri*) the same scenarios run on Miri's scheduler with its virtual clock: time
+//! only advances when every thread is blocked, so a missed notification shows up as the waiter
+//! returning Timeout at a 10^6 s deadline — load-independent.
+
 use crate::common::*;
+use repe::{CreditError, NotifyBody, PeerHandle, PeerId, PeerSendError, PeerSink, ReconnectOutcome, TransferControl};
+use serde_json::{Value, json};
+use std::cell::RefCell;
+use std::sync::atomic::{AtomicU64, Ordering};
+use std::sync::{Arc, Mutex, mpsc};
+use std::time::{Duration, Instant};
+
+struct NullSink;
+impl PeerSink for NullSink {
+    fn send_notify(&self, _m: &str, _b: NotifyBody) -> Result<(), PeerSendError> {
+        Ok(())
+    }
+}
+fn peer(id: u64) -> PeerHandle {
+    PeerHandle::new(PeerId(id), Arc::new(NullSink))
+}
+
+#[derive(Clone, Debug, PartialEq, Eq, Hash)]
+enum Sig {
+    Ack { file: u32, off: u64 },
+    Cancel,
+    Advance { file: u32 },
+    Resume { file: u32, off: u64 },
+    Send { n: u64 },
+    /// spurious wake: notify_all without any state change
+    Kick,
+}
+
+#[derive(Clone, Debug, PartialEq, Eq, Hash)]
+enum Kind {
+    Credit { chunk: u64 },
+    Reconnect,
+}
+
+#[derive(Clone, Debug, Hash)]
+struct Scenario {
+    kind: Kind,
+    window: u64,
+    /// chunks of this size are pushed+sent before the waiter starts (sent = pre * unit)
+    unit: u64,
+    pre: u64,
+    signallers: Vec<Vec<(Sig, u32)>>, // (op, spin count before it)
+    /// Some(ms): a never-true wait with this deadline; None: far-future deadline
+    short_deadline_ms: Option<u64>,
+    waiter_delay_spins: u32,
+}
+
+struct SchedLog {
+    clock: AtomicU64,
+    ev: Mutex<Vec<(u64, &'static str)>>,
+}
+
+thread_local! {
+    static CUR: RefCell<Option<Arc<SchedLog>>> = const { RefCell::new(None) };
+}
+
+fn install_probe() {
+    repe::verif_hooks::set_probe(Some(Arc::new(|point: &'static str, _id: u64| {
+        if !point.starts_with("stream.") {
+            return;
+        }
+        CUR.with(|c| {
+            if let Some(l) = c.borrow().as_ref() {
+                let s = l.clock.fetch_add(1, Ordering::SeqCst);
+                l.ev.lock().unwrap().push((s, point));
+            }
+        });
+    })));
+}
+
+#[derive(Debug, Clone, PartialEq)]
+enum WaitRes {
+    Ok,
+    Resume(u64),
+    Cancelled,
+    Timeout,
+}
+
+fn gen_scenario(r: &mut Rng, miri: bool) -> Scenario {
+    let unit = 1 + r.below(4);
+    let pre = 1 + r.below(4);
+    let sent = unit * pre;
+    let never_true = r.chance(1, if miri { 6 } else { 8 });
+    let reconnect = r.chance(1, 3);
+    // credit: window chosen so that the waiter must park initially: sent + chunk > window
+    let chunk = 1 + r.below(3);
+    let window = if reconnect { 1 << 20 } else { (sent + chunk - 1).saturating_sub(r.below(unit.min(sent))) };
+    let nsig = 1 + r.usize_below(3);
+    let mut signallers = vec![];
+    for _ in 0..nsig {
+        let len = 1 + r.usize_below(if miri { 2 } else { 4 });
+        let mut ops = vec![];
+        for _ in 0..len {
+            let spin = if miri { 0 } else { r.below(3000) as u32 };
+            let op = if never_true {
+                // only operations that cannot make the condition true
+                match r.below(4) {
+                    0 => Sig::Ack { file: 7, off: r.boundary_u64() },          // wrong file
+                    1 => Sig::Ack { file: 0, off: 0 },                        // not advancing
+                    2 => Sig::Kick,
+                    _ => if reconnect { Sig::Resume { file: 3, off: 0 } } else { Sig::Send { n: 1 } }, // wrong-file resume / more in flight
+                }
+            } else if reconnect {
+                match r.below(8) {
+                    0 | 1 | 2 => Sig::Resume { file: 0, off: unit * r.below(pre + 1) },
+                    3 => Sig::Resume { file: 0, off: unit * r.below(pre + 1) + if unit > 1 { 1 } else { 7 } }, // off boundary: rejected
+                    4 => Sig::Cancel,
+                    5 => Sig::Kick,
+                    6 => Sig::Ack { file: 0, off: r.below(sent + 1) },
+                    _ => Sig::Advance { file: 0 },
+                }
+            } else {
+                match r.below(10) {
+                    0 | 1 | 2 => Sig::Ack { file: 0, off: r.below(sent + 2) },
+                    3 => Sig::Ack { file: r.below(2) as u32 + 1, off: u64::MAX },
+                    4 => Sig::Cancel,
+                    5 => Sig::Advance { file: 1 },
+                    6 => Sig::Resume { file: 0, off: unit * r.below(pre + 1) },
+                    7 => Sig::Send { n: 1 + r.below(2) },
+                    8 => Sig::Kick,
+                    _ => Sig::Ack { file: 0, off: sent },
+                }
+            };
+            ops.push((op, spin));
+        }
+        signallers.push(ops);
+    }
+    Scenario {
+        kind: if reconnect { Kind::Reconnect } else { Kind::Credit { chunk } },
+        window,
+        unit,
+        pre,
+        signallers,
+        short_deadline_ms: if never_true { Some(if miri { 50 } else { 15 + r.below(30) }) } else { None },
+        waiter_delay_spins: if miri { 0 } else { r.below(4000) as u32 },
+    }
+}
+
+struct Outcome {
+    violation: Option<(String, String)>,
+    inconclusive: Option<String>,
+    class: &'static str,
+    parks: usize,
+}
+
+fn spin(n: u32) {
+    for _ in 0..n {
+        std::hint::spin_loop();
+    }
+}
+
+fn run_scenario(s: &Scenario, miri: bool, hb: Option<&Heartbeat>) -> Outcome {
+    let ctl = TransferControl::with_replay_capacity(s.window, 1 << 20);
+    for i in 0..s.pre {
+        ctl.push_replay(i * s.unit, s.unit, false, vec![i as u8; s.unit as usize]);
+        ctl.record_sent((i + 1) * s.unit);
+    }
+    let log = Arc::new(SchedLog { clock: AtomicU64::new(0), ev: Mutex::new(vec![]) });
+    let far = if miri { Duration::from_secs(1_000_000) } else { Duration::from_secs(600) };
+    let (tx, rx) = mpsc::channel::<(WaitRes, bool, Duration)>();
+    // waiter
+    let w = {
+        let (ctl, log, s2) = (ctl.clone(), log.clone(), s.clone());
+        std::thread::spawn(move || {
+            CUR.with(|c| *c.borrow_mut() = Some(log));
+            spin(s2.waiter_delay_spins);
+            let start = Instant::now();
+            let dur = s2.short_deadline_ms.map(Duration::from_millis).unwrap_or(far);
+            let deadline = start + dur;
+            let res = match s2.kind {
+                Kind::Credit { chunk } => match ctl.wait_for_credit(chunk, deadline) {
+                    Ok(()) => WaitRes::Ok,
+                    Err(CreditError::Cancelled(_)) => WaitRes::Cancelled,
+                    Err(CreditError::Timeout) => WaitRes::Timeout,
+                },
+                Kind::Reconnect => match ctl.wait_for_reconnect(dur) {
+                    ReconnectOutcome::ResumeReady(p) => WaitRes::Resume(p.resume_at_offset),
+                    ReconnectOutcome::Cancelled(_) => WaitRes::Cancelled,
+                    ReconnectOutcome::Timeout => WaitRes::Timeout,
+                },
+            };
+            let now = Instant::now();
+            let _ = tx.send((res, now >= deadline, now.duration_since(start)));
+            CUR.with(|c| *c.borrow_mut() = None);
+        })
+    };
+    // signallers; each op stamped (call, return) with the same clock
+    let ops_log: Arc<Mutex<Vec<(u64, u64, Sig, bool)>>> = Arc::new(Mutex::new(vec![]));
+    let mut hs = vec![];
+    for ops in &s.signallers {
+        let (ctl, log, ops, ops_log) = (ctl.clone(), log.clone(), ops.clone(), ops_log.clone());
+        hs.push(std::thread::spawn(move || {
+            for (op, sp) in ops {
+                spin(sp);
+                let c = log.clock.fetch_add(1, Ordering::SeqCst);
+                let ok = match &op {
+                    Sig::Ack { file, off } => {
+                        ctl.record_ack(*file, *off);
+                        true
+                    }
+                    Sig::Cancel => {
+                        ctl.cancel("cancelled-by-signaller");
+                        true
+                    }
+                    Sig::Advance { file } => {
+                        ctl.advance_to_file(*file);
+                        true
+                    }
+                    Sig::Resume { file, off } => ctl.request_resume(peer(9), *file, *off).is_ok(),
+                    Sig::Send { n } => {
+                        let (sent, _) = ctl.offsets();
+                        ctl.record_sent(sent + n);
+                        true
+                    }
+                    Sig::Kick => {
+                        ctl.verif_notify_all();
+                        true
+                    }
+                };
+                let d = log.clock.fetch_add(1, Ordering::SeqCst);
+                ops_log.lock().unwrap().push((c, d, op, ok));
+            }
+        }));
+    }
+    for h in hs {
+        let _ = h.join();
+    }
+    let ops = ops_log.lock().unwrap().clone();
+    let cancelled = ops.iter().any(|(_, _, o, _)| *o == Sig::Cancel);
+    let describe = |extra: &str| {
+        let ev = log.ev.lock().unwrap().clone();
+        format!("{extra}; scenario {s:?}; ops (call,ret,op,accepted) {ops:?}; waiter probe events {ev:?}; offsets {:?}", ctl.offsets())
+    };
+    let classify = |log: &SchedLog| -> (&'static str, usize) {
+        let ev = log.ev.lock().unwrap();
+        let parks = ev.iter().filter(|e| e.1.ends_with(".park")).count();
+        (match parks { 0 => "never-parked", 1 => "parked-once", _ => "parked-repeatedly" }, parks)
+    };
+
+    // ---- never-true waits: must end with Timeout at/after the deadline
+    if let Some(ms) = s.short_deadline_ms {
+        let got = rx.recv_timeout(Duration::from_secs(if miri { 3_000_000 } else { 20 }));
+        let _ = w.join();
+        let (class, parks) = classify(&log);
+        return match got {
+            Ok((WaitRes::Timeout, after_deadline, took)) => {
+                if !after_deadline {
+                    Outcome { violation: Some(("C12:timeout-before-deadline".into(), describe(&format!("Timeout returned after {took:?}, before the {ms} ms deadline")))), inconclusive: None, class, parks }
+                } else {
+                    Outcome { violation: None, inconclusive: None, class, parks }
+                }
+            }
+            Ok((other, _, took)) => Outcome { violation: Some((format!("C12:never-true-wait-returned:{}", format!("{other:?}").split('(').next().unwrap_or("")), describe(&format!("a wait whose condition never became true returned {other:?} after {took:?}")))), inconclusive: None, class, parks },
+            Err(_) => {
+                if hb.map(|h| h.max_gap_ms() > 1000).unwrap_or(false) {
+                    Outcome { violation: None, inconclusive: Some("machine stall during a short-deadline wait".into()), class, parks }
+                } else {
+                    Outcome { violation: Some(("C12:timeout-never-returned".into(), describe(&format!("wait with a {ms} ms deadline had not returned after 20 s")))), inconclusive: None, class, parks }
+                }
+            }
+        };
+    }
+
+    // ---- far-future waits
+    // must the waiter return, judging only from what the signallers observably did?
+    let must_return = match s.kind {
+        Kind::Credit { chunk } => !matches!(ctl.wait_for_credit(chunk, Instant::now()), Err(CreditError::Timeout)),
+        Kind::Reconnect => {
+            cancelled
+                || ops.iter().any(|(rc, _, o, ok)| {
+                    matches!(o, Sig::Resume { .. }) && *ok && !ops.iter().any(|(_, ad, a, _)| matches!(a, Sig::Advance { .. }) && ad > rc)
+                })
+        }
+    };
+    let mut violation = None;
+    let mut inconclusive = None;
+    let grace = if miri { Duration::from_secs(10) } else { Duration::from_secs(2) };
+    let mut result = None;
+    if must_return {
+        match rx.recv_timeout(grace) {
+            Ok(r) => result = Some(r),
+            Err(_) => {
+                // still parked although its condition is true. Spurious wake that changes no state:
+                let stalled = hb.map(|h| h.max_gap_ms() > 1000).unwrap_or(false);
+                ctl.verif_notify_all();
+                match rx.recv_timeout(Duration::from_secs(5)) {
+                    Ok(r) => {
+                        if stalled {
+                            inconclusive = Some("waiter late but the machine stalled".to_string());
+                        } else {
+                            violation = Some(("C12:lost-wakeup:".to_string() + match s.kind { Kind::Credit { .. } => "credit", Kind::Reconnect => "reconnect" } + ":" + &last_satisfying(&ops, s), describe(&format!("waiter stayed parked {grace:?} after its condition became true and returned {:?} only after a state-free notify_all", r.0))));
+                        }
+                        result = Some(r);
+                    }
+                    Err(_) => {
+                        violation = Some(("C12:waiter-stuck".into(), describe("condition true, waiter did not return even after a spurious wake")));
+                    }
+                }
+            }
+        }
+    }
+    if result.is_none() && violation.is_none() {
+        // legitimately still waiting (or ambiguous): a cancel must wake it
+        if let Ok(r) = rx.try_recv() {
+            result = Some(r);
+        } else {
+            ctl.cancel("harness-cleanup");
+            match rx.recv_timeout(Duration::from_secs(if miri { 10 } else { 10 })) {
+                Ok(r) => result = Some(r),
+                Err(_) => {
+                    let stalled = hb.map(|h| h.max_gap_ms() > 1000).unwrap_or(false);
+                    ctl.verif_notify_all();
+                    let after_kick = rx.recv_timeout(Duration::from_secs(5)).ok();
+                    if stalled {
+                        inconclusive = Some("cancel wake late but the machine stalled".into());
+                    } else {
+                        violation = Some(("C12:lost-wakeup:cancel".into(), describe(&format!("waiter did not return within 10 s of cancel; after a state-free notify_all it returned {:?}", after_kick.as_ref().map(|r| &r.0)))));
+                    }
+                    result = after_kick;
+                }
+            }
+        }
+    }
+    if result.is_some() {
+        let _ = w.join();
+    } // else: leak the stuck thread
+    if let (Some((res, _, took)), None) = (&result, &violation) {
+        // plausibility of the returned value
+        match res {
+            WaitRes::Timeout => violation = Some(("C12:timeout-before-deadline:far-future".into(), describe(&format!("a wait with a far-future deadline returned Timeout after {took:?}")))),
+            WaitRes::Cancelled if !cancelled && !ctl.cancel_reason().map(|r| r == "harness-cleanup").unwrap_or(false) => {
+                violation = Some(("C12:cancelled-without-cancel".into(), describe("waiter reported Cancelled but nobody cancelled")))
+            }
+            WaitRes::Resume(o) => {
+                if !ops.iter().any(|(_, _, op, ok)| matches!(op, Sig::Resume { off, .. } if off == o) && *ok) {
+                    violation = Some(("C12:resume-not-requested".into(), describe(&format!("waiter got ResumeReady({o}) that no accepted resume asked for"))));
+                }
+            }
+            _ => {}
+        }
+    }
+    let (class, parks) = classify(&log);
+    Outcome { violation, inconclusive, class, parks }
+}
+
+fn last_satisfying(ops: &[(u64, u64, Sig, bool)], _s: &Scenario) -> String {
+    // name the kind of the last state-changing accepted signal (stable signature component)
+    let mut o: Vec<_> = ops.iter().filter(|(_, _, op, ok)| *ok && !matches!(op, Sig::Kick | Sig::Send { .. })).collect();
+    o.sort_by_key(|x| x.1);
+    match o.last().map(|x| &x.2) {
+        Some(Sig::Ack { .. }) => "ack",
+        Some(Sig::Cancel) => "cancel",
+        Some(Sig::Advance { .. }) => "advance",
+        Some(Sig::Resume { .. }) => "resume",
+        _ => "none",
+    }
+    .to_string()
+}
 
 pub fn run(args: &Args) -> Report {
-    let mut rep = Report::new(args, "c12-stub", "stub");
-    rep.inconclusive("check not implemented");
+    let miri = args.stage.starts_with("miri");
+    let mut rep = Report::new(
+        args,
+        if miri { "c12-miri-virtual-clock" } else { "c12-native-threads" },
+        "one waiter (credit or reconnect) + 1..3 signalling threads with seeded operation lists and spins on a fresh \
+         TransferControl per schedule; park/wake probe events and operations stamped from one counter; logical verdicts (state \
+         predicate + state-free notify_all; under Miri the virtual clock). distinct = (scenario, observed event order) hashes",
+    );
+    install_probe();
+    let n = if miri { args.budget(2000, 16000).max(4) } else { args.budget(12_000, 1_000_000) };
+    let mut rng = Rng::new(args.seed ^ 0xC12);
+    let scenarios: Vec<Scenario> = (0..n).map(|i| gen_scenario(&mut rng.fork(i), miri)).collect();
+    let hb = if miri { None } else { Some(Heartbeat::start()) };
+    let workers = if miri { 1 } else { 8 };
+    let results: Mutex<Vec<(usize, Outcome)>> = Mutex::new(vec![]);
+    let next = AtomicU64::new(0);
+    let bad = AtomicU64::new(0);
+    std::thread::scope(|sc| {
+        for _ in 0..workers {
+            sc.spawn(|| {
+                loop {
+                    let i = next.fetch_add(1, Ordering::SeqCst) as usize;
+                    // a broken tree costs seconds per witness: a handful of witnesses is enough
+                    if i >= scenarios.len() || bad.load(Ordering::SeqCst) >= 6 {
+                        break;
+                    }
+                    let o = run_scenario(&scenarios[i], miri, hb.as_ref());
+                    if o.violation.is_some() {
+                        bad.fetch_add(1, Ordering::SeqCst);
+                    }
+                    results.lock().unwrap().push((i, o));
+                }
+            });
+        }
+    });
+    repe::verif_hooks::set_probe(None);
+    let mut classes: std::collections::BTreeMap<String, u64> = Default::default();
+    let mut parks_total = 0u64;
+    for (i, o) in results.into_inner().unwrap() {
+        rep.eval();
+        let s = &scenarios[i];
+        rep.distinct(&(hash_of(s), o.class, o.parks));
+        let k = format!("{}:{}:{}", match s.kind { Kind::Credit { .. } => "credit", Kind::Reconnect => "reconnect" }, if s.short_deadline_ms.is_some() { "never-true" } else { "far-deadline" }, o.class);
+        *classes.entry(k).or_default() += 1;
+        parks_total += o.parks as u64;
+        if i < 3 {
+            rep.sample(json!({"scenario": format!("{s:?}"), "waiter_class": o.class, "parks": o.parks}));
+        }
+        if let Some((sig, d)) = o.violation {
+            rep.violation(sig, d, json!({"seed": args.seed, "case": i, "scenario": format!("{s:?}")}));
+        }
+        if let Some(inc) = o.inconclusive {
+            rep.inconclusive(inc);
+        }
+    }
+    rep.set("schedule_classes", json!(classes));
+    rep.set("waiter_park_events", json!(parks_total));
+    if let Some(h) = &hb {
+        rep.set("heartbeat_max_gap_ms", json!(h.max_gap_ms()));
+    }
+    if parks_total == 0 {
+        rep.inconclusive("the waiter never parked in any schedule (park probe never reached)");
+    }
+    let _: Option<Value> = None;
     rep
 }
